@@ -569,7 +569,8 @@ class Sym:
         if z3.is_bool(s.t):
             raise Unsupported("index of bool")
         if not z3.is_int(s.t):
-            raise Unsupported("index of non-int")
+            # like a python float: no __index__
+            raise TypeError("'float' object cannot be interpreted as an integer")
         return ENGINE.concretize_int(s.t)
 
     def __int__(s):
